@@ -17,6 +17,7 @@ import DateutilVerif.Proofs.ParserGenLoop
 import DateutilVerif.Proofs.ParserGenParse
 import DateutilVerif.Proofs.ParserGenTail
 import DateutilVerif.Proofs.ParserGenInit
+import DateutilVerif.Proofs.ParserGenTzinfo
 
 namespace ParserGen
 open PM Py
@@ -258,6 +259,20 @@ example : PM.findHmsIdx (Info.default false false 2026 2000) 2 [tk "h", tk "04"]
 example : PM.findHmsIdx (Info.default false false 2026 2000) 1 [tk "h", tk "04"] true = some (0, 0) := by decide
 example : Gen.P.assignTzname (Info.default false false 2026 2000) { n0 := some (tk "EDT"), n1 := some (tk "EST") }
     (some (tk "EST")) = .ok { n0 := some (tk "EDT"), n1 := some (tk "EST"), fold := 1 } := by decide
+
+/-! ### `_build_tzinfo` -/
+
+/-- `parser._build_tzinfo(tzinfos, tzname, tzoffset)` as written now, for a `tzinfos` that is a callable or a mapping (the only
+    way `_build_tzaware` calls it): callable → its answer, else `.get(tzname)`; then tzinfo-instance-or-None kept / text →
+    `tz.tzstr` (may raise) / int → `tz.tzoffset(tzname, n)` (OverflowError beyond timedelta) / anything else TypeError.
+    The zone descriptor of `naive.replace(tzinfo=<that object>)`, or the exception, is the model's `PM.buildTzinfo`.
+    Named primitives: the user's `tzinfos` (`PPy.tziCall/tziGet`), the isinstance tests, the two constructors. -/
+theorem gen_eq_model_build_tzinfo (info : Info) (tzi : TzInfos) (name : Option Token) (off : Option Int) (h : tzi ≠ .absent) :
+    (Gen.P.buildTzinfo info tzi name off).map (PPy.descrOf name) = PM.buildTzinfo tzi name off :=
+  PGen.buildTzinfo_eq info tzi name off h
+
+example : Gen.P.buildTzinfo (Info.default false false 2026 2000) (.mapping [(some (tk "BRST"), .int (-10800))]) (some (tk "BRST")) none
+    = .ok (.fixed (some (tk "BRST")) (-10800)) := by decide
 
 /-! ### `parserinfo.__init__`: where `_century ≥ 100` comes from -/
 
